@@ -9,6 +9,7 @@ import Ivg.Gen.Tie.Code.Draw
 import Ivg.Gen.Tie.Code.Transform
 import Ivg.Gen.Tie.Code.RenderRegs
 import Ivg.Gen.Tie.Code.Logger
+import Ivg.Gen.Tie.Code.Retarget
 import Ivg.Obligations
 /-!
 # C05 — drawing operations reach the rasteriser as the right segments, affinely mapped
@@ -664,4 +665,8 @@ end Ivg.Props.C05
   -- regenerated code (translator): the RasterizerLogger reads are transparent
   Ivg.Gen.Tie.rasterizerLogger_Pen_code_tie,
   Ivg.Gen.Tie.rasterizerLogger_Bounds_code_tie,
-  Ivg.Gen.Tie.rasterizerLogger_Size_code_tie]
+  Ivg.Gen.Tie.rasterizerLogger_Size_code_tie,
+  -- regenerated code (translator): SetRasterizer recomputes the transform from the current viewBox and the new rectangle
+  Ivg.Gen.Tie.rectangle_Empty_code_tie,
+  Ivg.Gen.Tie.renderer_SetRasterizer_code_tie,
+  Ivg.Gen.Tie.renderer_SetRasterizer_code_tie_frame]
